@@ -10,6 +10,7 @@ expressions must each answer (a value or an error) within 10 seconds - no panic,
   D  time offsets: time(h, m, s, offset) with offsets up to and beyond a day and at the i32 limits, compared, rendered, read back
   E  extreme dates: arithmetic at the ends of the year range, huge number arguments of date / time / duration constructors
   F  the three-argument time() and date() with fractional and repeating-decimal components
+  H  context literals with unusual keys (empty, blank, symbols only, keywords) followed by more entries, names and paths
   G  nesting depth 50 and 200 of every nesting construct (parentheses, lists, contexts, negation, if, arithmetic, invocation, function
      definition, for, some, filter, path, between, in, type names) and long literals, each in its own driver process: no stack overflow
 
@@ -97,6 +98,11 @@ def cases():
     for s in ('1/3', '59.9999999999', '0.0000000001', '59.999999999999999999999999999999', '2/3', '0.5', '59.5', '1/7', '10/3'):
         out += ['time(12, 0, %s)' % s, 'time(12, %s, 0)' % s, 'time(%s, 0, 0)' % s, 'time(12, 0, %s, duration("PT1H"))' % s, 'time(12, 0, %s, null)' % s, 'date(2020, 1, %s)' % s, 'date(2020, %s, 1)' % s, 'date(%s, 1, 1)' % s,
                 'string(time(12, 0, %s))' % s, 'time(12, 0, %s).second' % s]
+    # ---- H: unusual context keys (empty, blank, symbols only, keywords) followed by more entries, names and paths
+    for k in ('""', '" "', '"+"', '"-"', '"a b"', '"a-b"', '"."', '"null"', '"if"', '"in"', '"1"', '"\\u0000"', '"a.b"', '"date and time"'):
+        out += ['{%s: 1}' % k, '{%s: 1, a: 2}' % k, '{%s: 1, a: 2}.a' % k, '{%s: 1, a: 2, b: a + 1}' % k, '{%s: {%s: 1}, a: 1}' % (k, k), '[{%s: 1}, {a: 1}]' % k, '{a: 1, %s: a}' % k,
+                'for x in [{%s: 1}] return x' % k, '{%s: 1, a b: 2, c: a b}' % k, '{%s: 1, %s: 2}' % (k, k), '{%s: 1}.%s' % (k, k.strip('"') or 'a'), 'get value({%s: 1}, %s)' % (k, k),
+                'get entries({%s: 1})' % k, '{%s: function(x) x + 1, r: 1}' % k]
     return out
 
 
